@@ -99,14 +99,14 @@ def run(ctx):
                      "CallPack.tla must be re-read against it; the verdict below is relative to the OLD transcription")
     ctx.cov["scala_fingerprints"] = dict(TRANSCRIBED)
 
-    n, dense, kstep, nrandom = (40, 3, 331, 3000) if ctx.quick else (110, 12, 3, 60000)
+    n, dense, kstep, nrandom = (40, 3, 499, 2000) if ctx.quick else (110, 12, 3, 60000)
     wd = tlc.prepare_dir(ctx.build / "tlc", ["fn"])
     env = {"CP_N": n, "CP_DENSE": dense, "CP_KSTEP": kstep, "CP_CALLS": wd / "calls.ndjson", "CP_IDX": wd / "idx.ndjson",
            "CP_EXTRA": wd / "extra.ndjson", "CP_CALLCASES": wd / "callcases.ndjson", "CP_IDXCASES": wd / "idxcases.ndjson",
            "CP_VERDICT": wd / "verdict.json"}
 
     # ---- (1) TLC: the transcription is self-consistent over the universe (exhaustive) ----------------------------
-    mc_env = dict(env, CP_N=20 if ctx.quick else 64)
+    mc_env = dict(env, CP_N=16 if ctx.quick else 64)
     (wd / "MC.cfg").write_text(tlc.mk_cfg(invariants=["TypeOK", "WordFits", "RoundTrip", "Canonical", "FatalIff"]))
     res = tlc.run(wd, "CallPack", "MC.cfg", workers=ctx.workers, coverage=True, env=mc_env)
     ctx.add_tlc(res, f"CallPack Pack/Unpack/Reject over the call universe, alleles <= {mc_env['CP_N']} + boundaries")
